@@ -9,7 +9,12 @@ pub fn ref_bidi(c: u32) -> bool { (0x590..=0x8FF).contains(&c) || (0xFB1D..=0xFD
 pub fn ref_unit_bidi(u: u16) -> bool { let c = u as u32; (!(0xD800..=0xDFFF).contains(&c) && ref_bidi(c)) || matches!(u, 0xD802 | 0xD803 | 0xD83A | 0xD83B) }
 fn l1b(latin1: bool, bidi: bool) -> Latin1Bidi { if latin1 { Latin1Bidi::Latin1 } else if bidi { Latin1Bidi::Bidi } else { Latin1Bidi::LeftToRight } }
 
+/// A validator / classifier that panics does not return an answer at all: reported like a wrong answer.
 pub fn check_bytes(drv: &mut Driver, ev: &mut Ev, data: &[u8], align: usize, enumerated: bool) {
+    let r = std::panic::catch_unwind(std::panic::AssertUnwindSafe(|| check_bytes_inner(drv, ev, data, align, enumerated)));
+    if let Err(e) = r { ev.violation("definition-diff", "panic(bytes)", format!("a function panicked: {} | {} bytes at alignment {}, input {}", panic_message(&e), data.len(), align, hexs(data))); }
+}
+fn check_bytes_inner(drv: &mut Driver, ev: &mut Ev, data: &[u8], align: usize, enumerated: bool) {
     let tr = ev.case();
     let b = drv.src8.carve_from(data, align);
     if data.iter().any(|x| *x >= 0x80) { if enumerated { ev.nontrivial_enum(); } else { ev.nontrivial_hash(H::new().b(data).u(align as u64).get()); } }
@@ -40,6 +45,10 @@ pub fn check_bytes(drv: &mut Driver, ev: &mut Ev, data: &[u8], align: usize, enu
     ev.sample(|| format!("bytes {} -> valid={} latin1={} bidi={}", hexs(data), valid, e_latin1, e_bidi));
 }
 pub fn check_units(drv: &mut Driver, ev: &mut Ev, data: &[u16], align: usize, enumerated: bool, count_case: bool) {
+    let r = std::panic::catch_unwind(std::panic::AssertUnwindSafe(|| check_units_inner(drv, ev, data, align, enumerated, count_case)));
+    if let Err(e) = r { ev.violation("definition-diff", "panic(units)", format!("a function panicked: {} | {} units at alignment {}, input [{}]", panic_message(&e), data.len(), align, hex16(&data[..data.len().min(80)]))); }
+}
+fn check_units_inner(drv: &mut Driver, ev: &mut Ev, data: &[u16], align: usize, enumerated: bool, count_case: bool) {
     if count_case { ev.case(); if data.iter().any(|x| *x >= 0x80) { if enumerated { ev.nontrivial_enum(); } else { ev.nontrivial_hash(H::new().u16s(data).u(align as u64).get()); } } }
     let u = drv.src16.carve_from(data, align);
     let e_basic = u.iter().all(|x| *x < 0x80);
